@@ -154,7 +154,10 @@ pub fn decode(bytes: &[u8]) -> Result<Wire, String> {
             Payload::Version { .. } => {}
             Payload::ComponentSection { unchecked_range, .. } => {
                 depth += 1;
-                w.push(Kind::Component, Origin::Component { bytes: bytes[unchecked_range.start..unchecked_range.end].to_vec() });
+                let Some(nested) = bytes.get(unchecked_range.start..unchecked_range.end) else {
+                    return Err(format!("nested component section {}..{} exceeds the {} bytes given (truncated input)", unchecked_range.start, unchecked_range.end, bytes.len()));
+                };
+                w.push(Kind::Component, Origin::Component { bytes: nested.to_vec() });
                 w.order.push("component".into());
             }
             Payload::ModuleSection { .. } => {
